@@ -486,4 +486,11 @@ func c01CheckResponse(k *kernel.K, ex *c01Ex, m *wire.Msg) {
 	if d := firstDiff(m.Body, want); d >= 0 {
 		k.Fail("C01.resp_body", params, "exchange #%d: response body differs at offset %d (origin sent %d bytes, client got %d): got %s want %s", id, d, len(want), len(m.Body), excerpt(m.Body, d), excerpt(want, d))
 	}
+	// An HTTP/1.0 client does not understand chunked transfer coding: to it the chunk framing IS
+	// the body (RFC 7230 section 3.3.1: a server must not send Transfer-Encoding to a 1.0 request).
+	if ex.req.Proto == "HTTP/1.0" && m.Framing == "chunked" {
+		k.Probe("http10_client_chunked_origin")
+		p2 := map[string]string{"framing": "chunked_to_http10_client", "content_encoding": ce, "len_class": lenClass(len(want))}
+		k.Fail("C01.resp_body", p2, "exchange #%d: the response to an HTTP/1.0 request was sent with Transfer-Encoding: chunked; an HTTP/1.0 client reads the chunk framing as body bytes (origin framed its %d-byte body as %s)", id, len(want), rs.Framing)
+	}
 }
